@@ -135,6 +135,11 @@ pub fn modes_general() -> Vec<GenCfg> {
     g.len = (40, 80);
     g.op_w = [25, 30, 8, 12, 5, 5, 4, 0, 8];
     v.push(g);
+    let mut vl = GenCfg::base("very-long");
+    vl.len = (150, 400);
+    vl.max_resting = 10;
+    vl.op_w = [26, 30, 9, 12, 5, 5, 4, 0, 4];
+    v.push(vl);
     // boundary magnitudes
     let mut h = GenCfg::base("big");
     h.big = true;
